@@ -164,6 +164,13 @@ struct HexState {
       }
       std::set<int> ecells(exp.begin(), exp.end());
       if (gcells != ecells) { o << "halfface_sheet_halffaces(" << hf.idx() << ") covers neighbour cells " << vec_str(std::vector<int>(gcells.begin(), gcells.end())) << ", the sheet neighbours are " << vec_str(uniq(exp)); return setfail(o.str()); }
+      // several laps: the single-lap sequence, repeated (the circulator honours max_laps like every other one)
+      for (int L = 2; L <= 3; ++L) {
+        std::vector<int> gl, want;
+        for (auto x : m.halfface_sheet_halffaces(hf, L)) gl.push_back(x.idx());
+        for (int r = 0; r < L; ++r) want.insert(want.end(), got.begin(), got.end());
+        if (gl != want) { o << "halfface_sheet_halffaces(" << hf.idx() << ", max_laps=" << L << ") visits " << gl.size() << " halffaces, expected the single-lap sequence of " << got.size() << " repeated " << L << " times"; return setfail(o.str()); }
+      }
       if (got.size() != uniq(exp).size() && exp.size() == uniq(exp).size()) { o << "halfface_sheet_halffaces(" << hf.idx() << ") reports " << got.size() << " halffaces for " << uniq(exp).size() << " neighbours"; return setfail(o.str()); }
       // adjacent_halfface_on_sheet agrees with the same neighbour relation
       for (auto he : hes) {
